@@ -12,8 +12,8 @@ PLANS = {
               dict(name="sim-L5-ops7", mode="sim", L=5, ops=7, seglen=5, grid="MC_CfgsAll", mod=1, walks=40, workers=4)],
     "thorough": [dict(name="L3-ops4-full", mode="bfs", L=3, ops=4, seglen=3, grid="MC_CfgsAll", mod=48),
                  dict(name="L4-ops4", mode="bfs", L=4, ops=4, seglen=4, grid="MC_CfgsQuick", mod=32),
-                 dict(name="L3-ops5", mode="bfs", L=3, ops=5, seglen=3, grid="MC_CfgsQuick", mod=256),
-                 dict(name="sim-L5-ops8", mode="sim", L=5, ops=8, seglen=5, grid="MC_CfgsAll", mod=1, walks=500, workers=4)],
+                 dict(name="L3-ops5", mode="bfs", L=3, ops=5, seglen=3, grid="MC_CfgsThree", mod=128),
+                 dict(name="sim-L5-ops8", mode="sim", L=5, ops=8, seglen=5, grid="MC_CfgsAll", mod=1, walks=200, workers=4)],
 }
 
 DEFECTS = [
